@@ -125,7 +125,11 @@ FeatClasses == [
                 "delta_dup_update", "delta_publish_existing_twice",
                 "delta_staged_collision"},
     updown |-> {"updown_issue_twice", "updown_revoke_issue",
-                "updown_issue_revoke", "updown_revoke_twice"},
+                "updown_issue_revoke", "updown_revoke_twice",
+                \* ... after the server's resource class was dropped and
+                \* re-created under another name (the child's record of
+                \* used keys still names the old class)
+                "updown_revoke_renumbered"},
     roa    |-> {"maxlen_lt_len", "maxlen_gt_family", "maxlen_huge", "as0"},
     pfx    |-> {"len_gt_family", "host_bits", "v6_full_range",
                 "pfx_garbage"},
